@@ -650,10 +650,9 @@ func (c *ChannelWriter) createPartition(ctx context.Context, apiEvent *api.Repli
 		return nil
 	}
 	dbName, colName := c.mapDBAndCollectionName(apiEvent.ReplicateParam.Database, apiEvent.CollectionInfo.Schema.GetName())
-	apiEvent.ReplicateParam.Database = dbName
 	createParam := &api.CreatePartitionParam{
 		MsgBaseParam:   api.MsgBaseParam{Base: &commonpb.MsgBase{ReplicateInfo: apiEvent.ReplicateInfo}},
-		ReplicateParam: apiEvent.ReplicateParam,
+		ReplicateParam: api.ReplicateParam{Database: dbName},
 		CollectionName: colName,
 		PartitionName:  apiEvent.PartitionInfo.PartitionName,
 	}
@@ -682,10 +681,9 @@ func (c *ChannelWriter) dropPartition(ctx context.Context, apiEvent *api.Replica
 	collectionName := apiEvent.CollectionInfo.Schema.GetName()
 	databaseName := apiEvent.ReplicateParam.Database
 	dbName, colName := c.mapDBAndCollectionName(databaseName, collectionName)
-	apiEvent.ReplicateParam.Database = dbName
 	dropParam := &api.DropPartitionParam{
 		MsgBaseParam:   api.MsgBaseParam{Base: &commonpb.MsgBase{ReplicateInfo: apiEvent.ReplicateInfo}},
-		ReplicateParam: apiEvent.ReplicateParam,
+		ReplicateParam: api.ReplicateParam{Database: dbName},
 		CollectionName: colName,
 		PartitionName:  partitionName,
 	}
